@@ -196,6 +196,54 @@ def r11c(R):
         '(or macro table) and %s() then mutates it: after `define t 8:00 time '
         'at t or 9:30` the macro t also matches 9:30, and the compiled '
         'program has changed' % (bad[0][1].func.attr if bad else ''))
+    # when INIT stores a copy, the copy must own every container the
+    # mutating methods change in place
+    mutated_attrs = set()
+    for m in mutating_methods(A, tp):
+        for n in walk_own(m.node):
+            if isinstance(n, ast.Call) and isinstance(n.func, ast.Attribute) \
+                    and self_attr(n.func.value):
+                mutated_attrs.add(n.func.value.attr)
+            if isinstance(n, ast.AugAssign) and self_attr(n.target):
+                mutated_attrs.add(n.target.attr)
+    for n in walk_own(f.node):
+        if isinstance(n, ast.Assign) and norm(n.targets[0]) == 'self._reg.time' \
+                and isinstance(n.value, ast.Call):
+            cands = list(A.callees(f, n.value))
+            if not cands and isinstance(n.value.func, ast.Attribute) and \
+                    n.value.func.attr in tp.methods:
+                cands = [tp.methods[n.value.func.attr]]
+            for callee in cands:
+                if callee.cls is not tp:
+                    continue
+                shared = []
+                for st in walk_own(callee.node):
+                    if isinstance(st, ast.Assign) and isinstance(st.targets[0], ast.Attribute) \
+                            and st.targets[0].attr in mutated_attrs \
+                            and not (isinstance(st.targets[0].value, ast.Name)
+                                     and st.targets[0].value.id == 'self'):
+                        v = st.value
+                        fresh = isinstance(v, (ast.List, ast.ListComp, ast.Dict,
+                                               ast.Set, ast.SetComp, ast.DictComp)) or (
+                            isinstance(v, ast.Call) and norm(v.func) in (
+                                'list', 'set', 'dict', 'tuple', 'sorted',
+                                'copy.copy', 'copy.deepcopy')) or (
+                            isinstance(v, ast.Call) and isinstance(v.func, ast.Attribute)
+                            and v.func.attr == 'copy') or (
+                            isinstance(v, ast.Subscript) and isinstance(v.slice, ast.Slice))
+                        if not fresh:
+                            shared.append(norm(st))
+                untouched = [a for a in mutated_attrs if not any(
+                    isinstance(st, ast.Assign) and isinstance(st.targets[0], ast.Attribute)
+                    and st.targets[0].attr == a
+                    and not (isinstance(st.targets[0].value, ast.Name)
+                             and st.targets[0].value.id == 'self')
+                    for st in walk_own(callee.node))]
+                R.check(callee, '%s gives the copy its own %s' % (
+                    callee.short, ', '.join(sorted(mutated_attrs))), not shared,
+                    'the copy shares %s with the original; %s() then changes '
+                    'both, i.e. the pattern stored in the program / macro table'
+                    % (', '.join(shared), ', '.join(sorted(muts))))
     # the mutation target must be what INIT stored
     stores = [n for n in walk_own(f.node) if isinstance(n, ast.Assign)
               and norm(n.targets[0]) == 'self._reg.time']
